@@ -64,6 +64,8 @@ def explicit_case(draw):
     # output sanitisation on and credentials in the base URL: only the redacted values may differ in the printed command
     if draw(st.integers(0, 3)) == 0:
         c["userinfo"] = draw(st.sampled_from(["usr:pw", "usr:p%40ss", "admin:s3cret"]))
+    # the command (or the hash, which is built from it) is asked for once before the case gets its final values
+    c["premature"] = draw(st.sampled_from([None, None, None, "hash", "curl"]))
     return c
 
 
@@ -129,8 +131,15 @@ def check_explicit(ctx: Ctx, inp) -> None:
     userinfo = inp.get("userinfo")
     schema = _schema(server.url.replace("http://", f"http://{userinfo}@") if userinfo else server.url, sanitize=bool(userinfo))
     op = schema["/u/{id}"][inp["method"]]
-    kwargs = {k: v for k, v in inp.items() if k not in ("method", "userinfo")}
-    case = op.Case(**kwargs)
+    kwargs = {k: v for k, v in inp.items() if k not in ("method", "userinfo", "premature")}
+    if inp.get("premature"):
+        case = op.Case(**{**kwargs, "query": {"q": "decoy"}, "path_parameters": {"id": "decoy"}})
+        _ = hash(case) if inp["premature"] == "hash" else case.as_curl_command()
+        case.query = kwargs.get("query") or {}
+        case.path_parameters = kwargs["path_parameters"]
+        ctx.classes["explicit:command-asked-for-before-the-final-values"] += 1
+    else:
+        case = op.Case(**kwargs)
     try:
         response = case.call()
     except Exception:  # noqa: BLE001 - a case requests cannot send is outside the statement
@@ -226,7 +235,7 @@ def check_api(ctx: Ctx, inp) -> None:
     schema = _schema(server.url)
     c, via, extra = inp["case"], inp["via"], inp["extra"]
     op = schema["/u/{id}"][c["method"]]
-    case = op.Case(**{k: v for k, v in c.items() if k not in ("method", "userinfo")})
+    case = op.Case(**{k: v for k, v in c.items() if k not in ("method", "userinfo", "premature")})
     message = None
     try:
         if via == "call_and_validate_headers":
